@@ -8,7 +8,7 @@
    the history of writes that really happened. *)
 From Coq Require Import List NArith Bool Arith Lia.
 From Verif.Common Require Import Cas.
-From Verif.C19 Require Import Model BlockLemmas.
+From Verif.C19 Require Import Model ModelV BlockLemmas.
 From Verif.C20 Require Import Model Spec Lemmas.
 Import ListNotations.
 Open Scope N_scope.
@@ -162,24 +162,27 @@ Section Safe.
     apply Forall_forall. intros o Hin. apply in_seq in Hin. lia.
   Qed.
 
-  Lemma claim_affine_block_safe H host c bs affrev : blockc c bs ->
-    safe H (claim_affine_block (c19cfg cf bs) host c affrev) (Pblk c).
+  Lemma claim_affine_block_safe H fx host c bs affrev : blockc c bs ->
+    safe H (claim_affine_block_v (c19cfg cf bs) fx host c affrev) (Pblk c).
   Proof.
     intros B. assert (B' : exists bs, blockc c bs) by eauto.
-    unfold claim_affine_block. sb safe_create_block; [apply bwf_new_block; exact B|].
+    unfold claim_affine_block_v. sb safe_create_block; [apply bwf_new_block; exact B|].
     destruct r as [[b rev]|e].
     - sb confirm_aff_safe; [exact B'|]. destruct r; sret.
     - destruct e; try sret. sb safe_get_block. destruct r as [[b rev]|e]; [|sret].
       destruct (optN_eqb (bk_aff b) (Some host)).
-      + sb confirm_aff_safe; [exact B'|]. destruct r; sret.
+      + destruct fx.
+        * sb safe_update_block; [exact P0|]. destruct r as [[b2 rev2]|e]; [|sret].
+          sb confirm_aff_safe; [exact B'|]. destruct r; sret. destruct P1 as [-> _]. apply bwf_bump; exact P0.
+        * sb confirm_aff_safe; [exact B'|]. destruct r; sret.
       + sb safe_delete_aff. sret.
   Qed.
 
-  Lemma get_block_from_aff_safe H host c bs aff : blockc c bs ->
-    safe H (get_block_from_aff (c19cfg cf bs) host c aff) (Pblk c).
+  Lemma get_block_from_aff_safe H fx host c bs aff : blockc c bs ->
+    safe H (get_block_from_aff_v (c19cfg cf bs) fx host c aff) (Pblk c).
   Proof.
     intros B. assert (B' : exists bs, blockc c bs) by eauto.
-    unfold get_block_from_aff. destruct aff as [st affrev].
+    unfold get_block_from_aff_v. destruct aff as [st affrev].
     sb safe_get_block. destruct r as [[b brev]|e].
     - destruct (negb (optN_eqb (bk_aff b) (Some host))).
       + sb safe_delete_aff. destruct r; sret.
@@ -443,7 +446,7 @@ Section Safe.
   Lemma release_all_safe cs : forall H host, Forall (fun c => exists bs, blockc c bs) cs -> safe H (release_all cf cs host) Ptrue.
   Proof.
     induction cs as [|c t IH]; intros H host F; simpl; [exact I|].
-    inversion F; subst. sb release_stale_safe; [assumption|]. apply IH; assumption.
+    inversion F; subst. sb release_stale_safe; [assumption|]. sb IH; [assumption|]. sret.
   Qed.
 
   (* what the List of the host's affinities tells: every listed CIDR is a block of a configured pool *)
